@@ -12,7 +12,8 @@ RULE = ("near-collision histories (pairs of calls differing in exactly one argum
         "/ <=400 thorough) over 1-3 readers opened by path + one emulator object (seven accessors on one handle) on the same "
         "synthetic file (3D all layouts, irregular, 2D), preload in {F,T}, chunk_cache_size in {1,2,default}, with other readers "
         "opened and closed meanwhile; the result of every operation (not only the last) is compared with the same operation on "
-        "a fresh reader")
+        "a fresh reader"
+        "; K: Model/Cache.run vs real histories over 1-3 SgzReaders with logging handles: per call outcome, provenance digest and the range reads issued (hits, cross-reader evictions, preload, close)")
 
 
 def emu_apply(em, fi, op):
